@@ -29,7 +29,13 @@ type edit struct {
 	prio       int // for equal start offsets: lower first
 }
 
+type funcRange struct {
+	from, to token.Pos
+	name     string
+}
+
 type fileRW struct {
+	funcs  []funcRange
 	path   string
 	src    []byte
 	edits  []edit
@@ -137,9 +143,16 @@ func (rw *fileRW) insert(at token.Pos, text string, prio int) {
 
 func (rw *fileRW) text(n ast.Node) string { return string(rw.src[rw.off(n.Pos()):rw.off(n.End())]) }
 
+// site is "file.go:Func:line"; fingerprints drop the line.
 func (rw *fileRW) site(p token.Pos) string {
 	pos := rw.tf.Position(p)
-	return fmt.Sprintf("%s:%d", filepath.Base(pos.Filename), pos.Line)
+	fn := "-"
+	for _, f := range rw.funcs {
+		if f.from <= p && p < f.to {
+			fn = f.name
+		}
+	}
+	return fmt.Sprintf("%s:%s:%d", filepath.Base(pos.Filename), fn, pos.Line)
 }
 
 func (rw *fileRW) apply() []byte {
@@ -245,6 +258,21 @@ func fieldKey(info *types.Info, sel *ast.SelectorExpr) string {
 
 func rewriteFile(p *packages.Package, f *ast.File, rw *fileRW) {
 	info := p.TypesInfo
+	for _, d := range f.Decls {
+		if fd, ok := d.(*ast.FuncDecl); ok {
+			name := fd.Name.Name
+			if fd.Recv != nil && len(fd.Recv.List) == 1 {
+				t := fd.Recv.List[0].Type
+				if st, ok := t.(*ast.StarExpr); ok {
+					t = st.X
+				}
+				if id, ok := t.(*ast.Ident); ok {
+					name = id.Name + "." + name
+				}
+			}
+			rw.funcs = append(rw.funcs, funcRange{fd.Pos(), fd.End(), name})
+		}
+	}
 	// --- imports -----------------------------------------------------------
 	var importDecl *ast.GenDecl
 	usesRuntimeOnlyForFinalizer := false
